@@ -84,6 +84,7 @@ fn main() {
         "C12" => dispatch(&engines::snapxfer::XferEngine, &mode),
         "C13" => dispatch(&engines::snapsync::SyncEngine, &mode),
         "C15" => dispatch(&engines::demo::DemoEngine, &mode),
+        "C17" => dispatch(&engines::teehist::ThEngine, &mode),
         "C20" => dispatch(&engines::multi::MultiEngine, &mode),
         _ => {
             eprintln!("unknown property {}", prop);
